@@ -24,6 +24,17 @@ CHECKS = {
         note="Trusts the reference normaliser (splices, trigraphs, digraphs, tab expansion in block comments) and the "
              "cursor observation. Lexer runs that end in an exception are counted, not judged here (C05 does).",
         design="§3.1 M-LEX, §4.10"),
+    "C05": dict(
+        technique="sys.monitoring step clock (termination as bounded logical progress) + exception observation at the "
+                  "lexer, registry and process boundaries",
+        text="Real lexer / pipeline / command line are run on an exhaustively enumerated small-string space, lexeme "
+             "soups, very long runs of unmatched lexemes, generated complete files, all-or-sampled token prefixes and "
+             "bounded token edits of them, and hostile byte contents on disk. A logical clock (function entries + loop "
+             "back-edges inside norminette) decides termination against a calibrated budget; any exception other than "
+             "the controlled fatal parse error, any traceback or exit status outside {0,1} is a violation.",
+        note="Budget B(n)=2e6+15000n steps (>=60x the calibrated maximum, calibration re-measured each run); wall clock "
+             "never decides. Damaged-input crash sites have a long tail: only the sites reached by this workload are judged.",
+        design="§3.1 M-STEP, §4.5"),
 }
 
 NOT_YET = "check under construction in this round; not yet registered"
